@@ -162,6 +162,17 @@ def inventory(ctx, prog):
         if not ops:
             continue
         ent = by_key.get(b.key)
+        if ent is None and all(o["kind"] == "call" and o["detail"].endswith(RAW_FAMILY) for o in ops):
+            # a function that newly builds slices from raw parts: accepted when the generic RAW obligation can be discharged
+            # for every view it builds (pointer = input slice + offset, no wrap, offset + count <= len on every path)
+            why = _raw_discharge(b, prog)
+            if why is None:
+                for o in ops:
+                    n_ops += 1
+                    ctx.instance("INVENTORY", "%s|%s|%s|%d" % (prog.config, b.key, o["kind"], n_ops),
+                                 sample={"fn": b.key, "op": o["detail"], "schema": "RAW (discharged generically)"})
+                continue
+            ctx.note("%s: new raw-parts site, generic RAW obligation not discharged: %s" % (b.key, why))
         for o in ops:
             n_ops += 1
             what = "%s %s" % (o["kind"], o["detail"])
@@ -189,6 +200,37 @@ def raw_terms(t, acc):
     for x in t[1:]:
         if isinstance(x, tuple):
             raw_terms(x, acc)
+
+
+RAW_FAMILY = ("::from_raw_parts", "::from_raw_parts_mut", "::offset", "::add", "::as_ptr", "::as_mut_ptr")
+
+
+def _raw_discharge(b, prog):
+    try:
+        paths = sym.paths_of(b, prog)
+    except sym.TooManyPaths:
+        return "too many paths"
+    n = 0
+    for p in paths:
+        if p.kind != "return":
+            continue
+        conds = [table.norm_atom(c) for c in p.conds]
+        acc = []
+        raw_terms(p.value, acc)
+        for e in p.events:
+            if e[0] == "call":
+                raw_terms(e[2], acc)
+        for t in acc:
+            n += 1
+            v = views.view(t)
+            if v is None or v[0] != "view":
+                return "pointer is not `slice.as_ptr()` plus an offset: %s" % show(t[1])
+            if not (isinstance(v[1], tuple) and v[1] and v[1][0] == "p"):
+                return "the view is not over a parameter slice: %s" % show(v[1])
+            msg = _inbounds(p, conds, v[2], v[3], sym.mk_len(v[1]))
+            if msg:
+                return msg
+    return None if n else "no raw-parts view found on a returning path"
 
 
 def _inbounds(p, conds, off, cnt, L):
